@@ -135,7 +135,7 @@ fn stop(name: &str) -> Rc<Statement> {
     Rc::new(Call { label: ident(name), args: TypingContext { bindings: vec![] } }.into())
 }
 
-pub fn enabled(kinds: &[Kind], k: usize, rich: bool) -> Vec<Op> {
+pub fn enabled(kinds: &[Kind], k: usize, rich: bool, pad: usize) -> Vec<Op> {
     let n = kinds.len();
     let mut ops = Vec::new();
     if n < k {
@@ -177,7 +177,8 @@ pub fn enabled(kinds: &[Kind], k: usize, rich: bool) -> Vec<Op> {
             ops.push(Op::Create(m));
         }
     }
-    if n == 2 && kinds[0] == Kind::Int && matches!(kinds[1], Kind::Cont(_)) {
+    // an invocation needs the environment to be exactly arguments ++ closure: impossible with padding
+    if pad == 0 && n == 2 && kinds[0] == Kind::Int && matches!(kinds[1], Kind::Cont(_)) {
         ops.push(Op::Invoke);
     }
     ops
@@ -190,7 +191,13 @@ fn lit_value(_n: usize) -> i64 {
 }
 
 /// The AxCut statement implementing `op` in the environment `kinds`.
-pub fn op_statement(types: &[TypeDeclaration], op: Op, kinds: &[Kind]) -> Statement {
+pub fn op_statement(types: &[TypeDeclaration], op: Op, kinds: &[Kind], pad: usize) -> Statement {
+    let op = match op {
+        Op::Dup(i) => Op::Dup(i + pad),
+        Op::Drop(i) => Op::Drop(i + pad),
+        Op::ToLast(i) => Op::ToLast(i + pad),
+        o => o,
+    };
     let ctx = ctx_of(kinds);
     let n = ctx.len();
     let new = |k: &Kind| kind_binding(k, 100);
@@ -286,6 +293,9 @@ pub struct Search {
     pub prog: AnyProg,
     pub cache: HashMap<(Op, Vec<Kind>), usize>,
     pub k: usize,
+    /// identity integer variables in front of the window (moves the window across the
+    /// register/spill boundary)
+    pub pad: usize,
     pub max_live: usize,
     pub heap_words: usize,
     pub footprint_bound: i64,
@@ -295,16 +305,18 @@ pub struct Search {
 }
 
 pub enum StepResult {
+    /// the backend's documented capacity is exceeded: the transition is not explored
+    Capacity,
     Next(Node, HeapFacts),
     Violation(String, String),
     Machinery(String),
 }
 
 impl Search {
-    pub fn new(arch: Arch, k: usize, max_live: usize) -> Search {
+    pub fn new(arch: Arch, k: usize, max_live: usize, pad: usize) -> Search {
         let info = arch_info(arch);
         let heap_words = info.block_words * (max_live + 8);
-        Search { arch, info, types: std_types(), prog: AnyProg::new(arch), cache: HashMap::new(), k, max_live, heap_words, footprint_bound: 2, code_class: HashMap::new() }
+        Search { arch, info, types: std_types(), prog: AnyProg::new(arch), cache: HashMap::new(), k, pad, max_live, heap_words, footprint_bound: 2, code_class: HashMap::new() }
     }
 
     /// The machine state right after the real prologue (or the harness set-up on RV64).
@@ -331,6 +343,11 @@ impl Search {
             }
         };
         let mut node = Node { st, kinds: vec![], vals: vec![], peak: 0, path: vec![] };
+        for i in 0..self.pad {
+            node.kinds.push(Kind::Int);
+            node.vals.push(RVal::Int(900 + i as i64));
+            node.st.set_loc(self.info.temps[2 * i + 1], Word::def(900 + i as i64));
+        }
         self.scrub(&mut node);
         Ok(node)
     }
@@ -339,7 +356,7 @@ impl Search {
         if let Some(i) = self.cache.get(&(op, kinds.to_vec())) {
             return Ok(*i);
         }
-        let stmt = op_statement(&self.types, op, kinds);
+        let stmt = op_statement(&self.types, op, kinds, self.pad);
         let text = fragment(self.arch, &self.types, stmt, TypingContext { bindings: ctx_of(kinds) }).map_err(|e| format!("{e:?}"))?;
         let start = self.prog.append(&text)?;
         self.cache.insert((op, kinds.to_vec()), start);
@@ -351,7 +368,7 @@ impl Search {
     fn scrub(&self, node: &mut Node) {
         let n = node.kinds.len();
         let dead = Word::undef(0x0dead_0000);
-        for p in 2 * n..(2 * (self.k + 6)).min(self.info.temps.len()) {
+        for p in 2 * n..(2 * (self.k + self.pad + 6)).min(self.info.temps.len()) {
             node.st.set_loc(self.info.temps[p], dead);
         }
         for (i, k) in node.kinds.iter().enumerate() {
@@ -397,6 +414,7 @@ impl Search {
     pub fn step(&mut self, node: &Node, op: Op) -> StepResult {
         let start = match self.code_for(op, &node.kinds) {
             Ok(s) => s,
+            Err(e) if e.contains("Out of registers") || e.contains("Out of temporaries") => return StepResult::Capacity,
             Err(e) => return StepResult::Machinery(format!("codegen for {op:?} in {:?}: {e}", node.kinds)),
         };
         let mut next = node.clone();
@@ -416,8 +434,14 @@ impl Search {
             }
             Stop::Return(_) => return StepResult::Violation("fault".into(), format!("{op:?} returned from the routine")),
         };
-        // reference model transition
+        // reference model transition (window-relative indices are shifted by the padding)
         let n = node.kinds.len();
+        let op = match op {
+            Op::Dup(i) => Op::Dup(i + self.pad),
+            Op::Drop(i) => Op::Drop(i + self.pad),
+            Op::ToLast(i) => Op::ToLast(i + self.pad),
+            o => o,
+        };
         let expect_label;
         match op {
             Op::Lit => {
@@ -686,8 +710,8 @@ fn pack(n: Node) -> QNode {
     QNode { c: n.st.compact(), kinds: n.kinds, vals: n.vals, peak: n.peak, path: n.path }
 }
 
-pub fn search(arch: Arch, k: usize, max_live: usize, rich: bool, max_states: u64, ctx: &WorkerCtx, rep: &mut Report) -> BfsOutcome {
-    let mut s = Search::new(arch, k, max_live);
+pub fn search(arch: Arch, k: usize, max_live: usize, rich: bool, pad: usize, max_states: u64, ctx: &WorkerCtx, rep: &mut Report) -> BfsOutcome {
+    let mut s = Search::new(arch, k, max_live, pad);
     let mut out = BfsOutcome { states: 0, transitions: 0, depth: 0, fixpoint: false, cap: None };
     let init = match s.initial() {
         Ok(n) => n,
@@ -708,9 +732,10 @@ pub fn search(arch: Arch, k: usize, max_live: usize, rich: bool, max_states: u64
         let mut next_level = VecDeque::new();
         while let Some(q) = level.pop_front() {
             let node = Node { st: AnyState::expand(&template, &q.c), kinds: q.kinds, vals: q.vals, peak: q.peak, path: q.path };
-            for op in enabled(&node.kinds, k, rich) {
+            for op in enabled(&node.kinds[s.pad..], k, rich, s.pad) {
                 out.transitions += 1;
                 match s.step(&node, op) {
+                    StepResult::Capacity => rep.count("pruned_by_backend_capacity", 1),
                     StepResult::Machinery(m) => {
                         rep.machinery(format!("{} after {:?}: {m}", arch.name(), node.path));
                         break 'bfs;
@@ -726,7 +751,7 @@ pub fn search(arch: Arch, k: usize, max_live: usize, rich: bool, max_states: u64
                             o => o.name(),
                         });
                         if violation_sigs.insert(sig.clone()) || violation_sigs.len() < 40 {
-                            rep.violation(sig, format!("history {path:?}: {msg}"), json!({"kind": "heapbfs", "arch": arch.name(), "k": k, "max_live": max_live, "path": path}));
+                            rep.violation(sig, format!("history {path:?}: {msg}"), json!({"kind": "heapbfs", "arch": arch.name(), "k": k, "max_live": max_live, "pad": pad, "path": path}));
                         }
                         rep.outcomes.insert(format!("violation/{kind}"));
                     }
@@ -794,12 +819,14 @@ pub fn replay(case: &serde_json::Value) -> Result<Option<String>, String> {
     };
     let k = case["k"].as_u64().ok_or("k")? as usize;
     let max_live = case["max_live"].as_u64().ok_or("max_live")? as usize;
-    let mut s = Search::new(arch, k, max_live);
+    let pad = case["pad"].as_u64().unwrap_or(0) as usize;
+    let mut s = Search::new(arch, k, max_live, pad);
     let mut node = s.initial()?;
     for o in case["path"].as_array().ok_or("path")? {
         let op = Op::parse(o.as_str().ok_or("op")?).ok_or("unknown op")?;
         match s.step(&node, op) {
             StepResult::Next(n, _) => node = n,
+            StepResult::Capacity => return Ok(None),
             StepResult::Violation(kind, msg) => return Ok(Some(format!("{kind}: {msg}"))),
             StepResult::Machinery(m) => return Err(m),
         }
